@@ -144,6 +144,8 @@ class Interp:
         self.unmodelled = collections.Counter()
         self.loop_cut = True
         self.lenient_std = False
+        self.header_read = None       # (ip, st, oid, path) -> value: a model's view of raw reads of an object header
+        self.header_write = None      # (ip, st, oid, path, value)
         self.opaque_crates = {"tracing", "tracing_core"}
         import os
         self.trace = bool(os.environ.get("GCV_TRACE"))
@@ -197,6 +199,8 @@ class Interp:
         elif alloc in self.const_mem:
             v = self.const_mem[alloc]
         elif alloc[0] == "H":
+            if self.header_read is not None:
+                return self.header_read(self, st, alloc[1], tuple(path))
             v = ("hdrval", alloc[1])
         elif alloc[0] == "T":
             v = ("app", "deref", (alloc[1],))
@@ -234,6 +238,9 @@ class Interp:
             if alloc in self.const_mem:
                 raise InterpError("write to constant memory")
             if alloc[0] == "H":
+                if self.header_write is not None:
+                    self.header_write(self, st, alloc[1], tuple(path), val)
+                    return
                 raise InterpError("raw write into a GcHeader (only accessors are modelled)")
             if alloc[0] == "T":
                 st.event("write_term", alloc[1], path, val)
